@@ -42,6 +42,7 @@ def main():
     ap.add_argument('--checks', default=None)
     ap.add_argument('--full-suite', action='store_true')
     ap.add_argument('--skip-confirm', action='store_true')
+    ap.add_argument('--only', default=None, help='comma list of contracts: only those are run (the others cannot see the change)')
     a = ap.parse_args()
     prop, k = a.prop, a.k
     src = f'/tmp/seed_{prop}_out/{k}'
@@ -77,6 +78,7 @@ def main():
             meta['confirmed'] = json.load(open(prev)).get('confirmed', {})
         sh(f'git apply {patch}', cwd=wt)
     checks = (a.checks.split(',') if a.checks else [prop])
+    only = (' --only ' + ' '.join(a.only.split(','))) if a.only else ''
     for cid in checks:
         t0 = time.time()
         if a.mode == 'repo':
@@ -86,15 +88,15 @@ def main():
                 meta['detection'][cid] = {'error': 'patch does not apply to /repo: ' + o[-300:]}
                 continue
             try:
-                rcc, oc = sh(f'./check {cid} --tier quick', cwd=ROOT, env=dict(os.environ, PYVC_MAX_SECONDS='1500'), timeout=7200)
+                rcc, oc = sh(f'./check {cid} --tier quick{only}', cwd=ROOT, env=dict(os.environ, PYVC_MAX_SECONDS='1500'), timeout=7200)
             finally:
                 sh('git -C /repo checkout -- .')
         else:
-            rcc, oc = sh(f'./check {cid} --tier quick', cwd=ROOT, env=dict(os.environ, FPY_REPO=wt, PYVC_MAX_SECONDS='1500'), timeout=7200)
+            rcc, oc = sh(f'./check {cid} --tier quick{only}', cwd=ROOT, env=dict(os.environ, FPY_REPO=wt, PYVC_MAX_SECONDS='1500'), timeout=7200)
         lines = [l for l in oc.split('\n') if l.startswith('VIOLATION') or l.startswith('UNSUPPORTED') or l.startswith('CRASH') or l.startswith('UNDECIDED')]
         summ = [l for l in oc.split('\n') if l.startswith(cid + ':')]
         meta['detection'][cid] = {'exit': rcc, 'detected': rcc == 1 and any(l.startswith('VIOLATION') for l in lines),
-                                  'lines': [l[:300] for l in lines[:8]], 'summary': summ[:1], 'secs': round(time.time() - t0), 'mode': a.mode}
+                                  'lines': [l[:300] for l in lines[:8]], 'summary': summ[:1], 'secs': round(time.time() - t0), 'mode': a.mode, 'only': a.only}
         # keep the evidence of the unchanged tree: re-running the check later restores it
     sh('git checkout -- . && git clean -fdq fpy2', cwd=wt)
     json.dump(meta, open(os.path.join(out, 'meta.json'), 'w'), indent=1)
